@@ -602,6 +602,9 @@ type builtBlock struct {
 	mint, maxt int64 // block meta: [mint, maxt)
 	blk        *tsdb.Block
 	model      []modelSeries
+	// statsSeriesMax is HealthStats.SeriesMaxSize of the block's index (what compactor-written metas carry in
+	// Thanos.IndexStats and what `thanos store` feeds into the per-block series size estimate).
+	statsSeriesMax int64
 }
 
 type blockSet struct {
@@ -681,6 +684,11 @@ func buildBlockSet(specs []blockSpec) (*blockSet, error) {
 		if bb.model, err = readModel(blk); err != nil {
 			return nil, err
 		}
+		hs, err := block.GatherIndexHealthStats(ctx, log.NewNopLogger(), filepath.Join(dir, block.IndexFilename), bb.mint, bb.maxt)
+		if err != nil {
+			return nil, fmt.Errorf("GatherIndexHealthStats: %w", err)
+		}
+		bb.statsSeriesMax = hs.SeriesMaxSize
 	}
 	ok = true
 	return bs, nil
@@ -780,7 +788,8 @@ type storeKnobs struct {
 	seriesLimit, chunksLimit uint64
 	indexCache               int // 0 off, >0 max size in bytes
 	lazy                     bool
-	estSeriesSize            uint64
+	estSeriesSize            uint64 // 0: option not set (64 KiB default); >0 fixed estimate
+	estFromStats             map[ulid.ULID]int64 // non-nil: `thanos store` formula over IndexStats.SeriesMaxSize
 	matchRatio               float64
 	batchSize                int
 	sampling                 int
@@ -789,6 +798,9 @@ type storeKnobs struct {
 }
 
 func (k storeKnobs) String() string {
+	if k.estFromStats != nil {
+		k.estSeriesSize = 7777777 // rendered marker: per-block estimate from index stats
+	}
 	return fmt.Sprintf("sl=%d cl=%d cache=%d lazy=%v est=%d ratio=%.2f batch=%d sampling=%d gap=%d pool=%v",
 		k.seriesLimit, k.chunksLimit, k.indexCache, k.lazy, k.estSeriesSize, k.matchRatio, k.batchSize, k.sampling, k.gap, k.chunkPool)
 }
@@ -883,7 +895,16 @@ func newBucketStore(bkt objstore.Bucket, k storeKnobs) (*liveStore, error) {
 		store.WithLazyExpandedPostings(k.lazy),
 		store.WithSeriesMatchRatio(k.matchRatio),
 	}
-	if k.estSeriesSize > 0 {
+	if k.estFromStats != nil {
+		m := k.estFromStats
+		opts = append(opts, store.WithBlockEstimatedMaxSeriesFunc(func(meta metadata.Meta) uint64 {
+			// cmd/thanos/store.go: IndexStats.SeriesMaxSize if set and below the configured estimate.
+			if v := m[meta.ULID]; v > 0 && v < store.EstimatedMaxSeriesSize {
+				return uint64(v)
+			}
+			return store.EstimatedMaxSeriesSize
+		}))
+	} else if k.estSeriesSize > 0 {
 		est := k.estSeriesSize
 		opts = append(opts, store.WithBlockEstimatedMaxSeriesFunc(func(metadata.Meta) uint64 { return est }))
 	}
